@@ -300,8 +300,8 @@ class C18Check(object):
         def scripted():
             """Sequences that rare history bugs need (bias, cf. 'place faults inside operations')."""
             nonlocal npots, nspaces, nops
-            kind = r.choice(["fmm_order_change", "fmm_explicit", "pot_pair", "clear_reuse", "mass_order", "peer_retry",
-                             "fmm_other_field", "space_variant_pair", "space_variant_pair"])
+            kind = r.choice(["fmm_order_change", "fmm_explicit", "pot_pair", "clear_reuse", "mass_order", "mass_order",
+                             "peer_retry", "fmm_other_field", "space_variant_pair", "space_variant_pair"])
             if kind == "space_variant_pair":
                 # two spaces on ONE grid that differ in a single option, the same operator on each, one after
                 # the other: exposes state keyed by the grid although it depends on the space
@@ -424,13 +424,15 @@ class C18Check(object):
                     nops += 1
                     return nops - 1
 
-                si = r.randrange(max(1, nspaces))
-                a_order = r.choice([1, 1, 2])
-                b_order = r.choice([3, 4, 5]) if a_order == 1 or r.random() < 0.5 else 1
-                if r.random() < 0.3:
+                # prefer a space with piecewise linear functions (order 1 is inexact for them)
+                lin = [i for i, (k_, g_) in enumerate(space_kinds) if k_ in ("P1", "DP1", "RWG", "SNC", "DUAL1")]
+                si = r.choice(lin) if lin and r.random() < 0.8 else r.randrange(max(1, nspaces))
+                a_order = 1
+                b_order = r.choice([3, 4, 5])
+                if r.random() < 0.4:
                     a_order, b_order = b_order, a_order
                 add({"t": "set_global", "field": "quadrature.regular", "value": a_order})
-                first = op_on(si) if r.random() < 0.6 else None
+                first = op_on(si) if r.random() < 0.75 else None
                 if first is not None:
                     add({"t": "strong_form", "op": first})
                 else:
